@@ -54,11 +54,24 @@ Theorem C09_index_labels_never_lost : forall (L : Type) (leq : L -> L -> bool) (
 Proof. exact M_irun_prefix. Qed.
 Print Assumptions C09_index_labels_never_lost.
 
-(* without any guard: on an index that has a map, a rejected append leaves the state exactly as it was *)
+(* without any guard: a rejected append leaves the labels list, the map and the count exactly as they
+   were -- with a map and (after fix feb832d) on a loc_is_iloc index too *)
 Theorem C09_index_append_atomic : forall (L : Type) (leq : L -> L -> bool) (as_pos : L -> option Z) s v e,
-  g_map s <> None -> snd (M_append L leq as_pos s v) = Err e -> fst (M_append L leq as_pos s v) = s.
-Proof. exact M_append_atomic_with_map. Qed.
+  snd (M_append L leq as_pos s v) = Err e ->
+  let s' := fst (M_append L leq as_pos s v) in
+  g_lm s' = g_lm s /\ g_map s' = g_map s /\ g_cnt s' = g_cnt s.
+Proof. exact M_append_atomic. Qed.
 Print Assumptions C09_index_append_atomic.
+
+(* a single append meets the specification for EVERY label (no guard): the guard of C09_index_refines
+   only restricts extend (a duplicate may only be the first label given) *)
+Theorem C09_index_append_refines : forall (L : Type) (leq : L -> L -> bool) (as_pos : L -> option Z),
+  (forall a, leq a a = true) -> (forall a b, leq a b = leq b a) ->
+  (forall a b x y, as_pos a = Some x -> as_pos b = Some y -> leq a b = (x =? y)) ->
+  forall s v, igo_wf L leq as_pos s ->
+  step_refines L leq as_pos (M_append L leq as_pos s v) (S_append L leq (g_lm s) v).
+Proof. exact M_append_refines. Qed.
+Print Assumptions C09_index_append_refines.
 
 (* ---------------------------------------------------------------- TypeBlocks *)
 (* append: accepted exactly when the heights agree; _blocks/_index/_dtypes/_shape stay coherent and the
